@@ -71,6 +71,12 @@ def ccG (s : Nat) (i : Fin s) : α :=
 /-- `h = v + g`, the input of `np.fft.ifft` -/
 def ccH (s : Nat) (i : Fin s) : α := ccV s i + ccG s i
 
+/-- what `np.fft.ifft(h).real` is for a REAL input vector `h` of length `s`: the real part of the inverse discrete Fourier
+    transform, `wcc[k] = (1/s) Σ_j h[j] cos(2π j k / s)`. With this definition the inverse FFT is no longer a parameter of the
+    Clenshaw–Curtis model; the harness checks numpy's `ifft` against it (it is the documented definition of `ifft`). -/
+def ccIdft [HasTrig α] (s : Nat) (pi : α) (h : Fin s → α) (k : Nat) : α :=
+  vsum (fun j : Fin s => h j * cos (lit 2 * pi * ((j.val * k : Nat) : α) / (s : α))) / (s : α)
+
 /-- nodes: `cos(pi * flip(arange(n)) / s) * 0.5 * (b - a) + 0.5 * (a + b)` (`pi` is a parameter) -/
 def ccPts [HasTrig α] (n : Nat) (pi a b : α) : Fin n → α :=
   fun i => cos (pi * ((n - 1 - i.val : Nat) : α) / ((n - 1 : Nat) : α)) * frac 1 2 * (b - a)
